@@ -71,7 +71,10 @@ type fsm13 struct {
 	flights            []*dtlsflight.Packet
 	retransmit         bool
 	retransmitInterval time.Duration
-	flightACK          reliableFlight
+	// lastPeerRetransmitAnswer is when the current flight was last re-sent
+	// because the peer repeated its own flight.
+	lastPeerRetransmitAnswer time.Time
+	flightACK                reliableFlight
 	handshakeContext
 	closed        chan struct{}
 	establishment *Establishment
@@ -496,6 +499,18 @@ func (s *fsm13) transitionAfterACK(result ACKResult, peerRetransmit bool) receiv
 		}
 
 		return receivedFlightTransition{state: StateWaiting}
+	}
+	if peerRetransmit && !result.Empty && len(result.Messages) == 0 {
+		// The peer repeated (part of) its flight. A flight is usually several
+		// datagrams, and each of them arrives here: answer the repetition once,
+		// not once per datagram. Otherwise two endpoints that both hold a flight
+		// answer every datagram of the other's answer with a full flight of their
+		// own, and the exchange multiplies with every round trip.
+		now := time.Now()
+		if now.Sub(s.lastPeerRetransmitAnswer) < s.cfg.InitialRetransmitInterval/2 {
+			return receivedFlightTransition{state: StateWaiting}
+		}
+		s.lastPeerRetransmitAnswer = now
 	}
 	if peerRetransmit && !s.retransmit && s.currentFlight == dtlsflight13.Flight2 {
 		// A HelloRetryRequest is never retransmitted on a timer, so a client that
